@@ -11,6 +11,7 @@ import Mathlib.Algebra.BigOperators.Ring.Finset
 import Mathlib.Tactic.Ring
 import Mathlib.Tactic.Linarith
 import Mathlib.Tactic.FieldSimp
+import Mathlib.Data.List.Perm.Subperm
 
 set_option linter.unusedSectionVars false
 set_option linter.unusedSimpArgs false
@@ -427,5 +428,237 @@ theorem modeUpdate_normal_eq {D : Data α} {S : Services α} {o : NumOps α} (ho
       rw [this]
 
 end normaleq
+
+section sweep
+variable {α : Type} [Add α] [Sub α] [Mul α] [Div α] [Neg α] [Zero α] [One α]
+
+/-- The last mode update of a sweep. -/
+theorem sweep_last {D : Data α} {S : Services α} {o : NumOps α} {rank it : Nat}
+    (dims : List Nat) (hne : dims ≠ []) {st st1 : State α}
+    (h : dims.foldlM (fun s n => modeUpdate D S o rank it (dims.getLastD 0) n s) st = .ok st1) :
+    ∃ smid, dims.dropLast.foldlM (fun s n => modeUpdate D S o rank it (dims.getLastD 0) n s) st = .ok smid ∧
+      modeUpdate D S o rank it (dims.getLastD 0) (dims.getLastD 0) smid = .ok st1 := by
+  have hd : dims = dims.dropLast ++ [dims.getLast hne] := (List.dropLast_append_getLast hne).symm
+  have hl : dims.getLastD 0 = dims.getLast hne := by
+    rw [List.getLastD_eq_getLast?, List.getLast?_eq_some_getLast hne]; rfl
+  rw [hl] at h ⊢
+  generalize dims.getLast hne = last at h hd ⊢
+  generalize dims.dropLast = pre at hd ⊢
+  subst hd
+  rw [List.foldlM_append] at h
+  cases hp : pre.foldlM (fun s n => modeUpdate D S o rank it last n s) st with
+  | error e => rw [hp] at h; cases h
+  | ok smid =>
+    rw [hp] at h
+    simp only [bind, Except.bind, List.foldlM_cons, List.foldlM_nil] at h
+    cases hm : modeUpdate D S o rank it last last smid with
+    | error e => rw [hm] at h; cases h
+    | ok s2 =>
+      rw [hm] at h
+      simp only [pure, Except.pure] at h
+      cases h
+      exact ⟨smid, rfl, hm⟩
+
+/-- The Gram matrices kept in the state are the Gram matrices of the factors. -/
+def GramOK (rank : Nat) (st : State α) : Prop :=
+  st.UtU.length = st.U.length ∧ ∀ m < st.U.length, st.UtU.getD m [] = gram (st.U.getD m []) rank
+
+theorem gramOK_init (D : Data α) (rank : Nat) (dims : List Nat) (K : Ktensor α) :
+    GramOK rank (initState D rank dims K) := by
+  refine ⟨by simp [initState], fun m hm => ?_⟩
+  simp only [initState] at hm
+  simp [initState, List.getD_eq_getElem?_getD, hm]
+
+theorem gramOK_applyUpdate (o : NumOps α) (I rank it last n : Nat) (B A0 : Mat α) (st : State α)
+    (h : GramOK rank st) : GramOK rank (applyUpdate o I rank it last n B A0 st) := by
+  refine ⟨by simp [applyUpdate, h.1], fun m hm => ?_⟩
+  simp only [applyUpdate, List.length_set] at hm ⊢
+  by_cases hnm : n = m
+  · subst hnm
+    rw [getD_set_eq _ _ _ _ hm, getD_set_eq _ _ _ _ (by rw [h.1]; exact hm)]
+  · rw [getD_set_ne _ _ _ hnm, getD_set_ne _ _ _ hnm]
+    exact h.2 m hm
+
+theorem gramOK_modeUpdate {D : Data α} {S : Services α} {o : NumOps α} {rank it last n : Nat} {st st' : State α}
+    (h : modeUpdate D S o rank it last n st = .ok st') (hG : GramOK rank st) : GramOK rank st' := by
+  obtain ⟨A0, _, rfl⟩ := modeUpdate_ok h
+  exact gramOK_applyUpdate _ _ _ _ _ _ _ _ _ hG
+
+theorem gramOK_foldlM {D : Data α} {S : Services α} {o : NumOps α} {rank it last : Nat} (dims : List Nat)
+    {st st' : State α}
+    (h : dims.foldlM (fun s n => modeUpdate D S o rank it last n s) st = .ok st') (hG : GramOK rank st) :
+    GramOK rank st' := by
+  induction dims generalizing st with
+  | nil => simp [List.foldlM] at h; cases h; exact hG
+  | cons n rest ih =>
+    rw [List.foldlM_cons] at h
+    cases hm : modeUpdate D S o rank it last n st with
+    | error e => rw [hm] at h; cases h
+    | ok st1 => rw [hm] at h; exact ih h (gramOK_modeUpdate hm hG)
+
+/-- The coefficient matrix of the update of mode `n`, entry by entry, in terms of the factors
+AFTER the update (which differ from those before only in mode `n`). -/
+theorem coef_get_after {D : Data α} {S : Services α} {o : NumOps α} {rank it last n : Nat} {st st' : State α}
+    (h : modeUpdate D S o rank it last n st = .ok st') (hG : GramOK rank st)
+    (hN : st.U.length = D.shape.length) {a r : Nat} (ha : a < rank) (hr : r < rank) :
+    (coef st.UtU D.shape.length rank n).get a r =
+      prodOver ((List.range D.shape.length).filter (· != n)) fun m => (gram (st'.U.getD m []) rank).get a r := by
+  obtain ⟨A0, _, rfl⟩ := modeUpdate_ok h
+  unfold coef
+  rw [get_tab _ _ _ ha hr]
+  unfold prodOver
+  congr 1
+  refine List.map_congr_left fun m hm => ?_
+  simp only [List.mem_filter, List.mem_range, bne_iff_ne, ne_eq] at hm
+  rw [hG.2 m (by rw [hN]; exact hm.1), applyUpdate_U, getD_set_ne _ _ _ (Ne.symm hm.2)]
+
+end sweep
+
+section setup
+variable {α : Type} [Add α] [Sub α] [Mul α] [Div α] [Neg α] [Zero α] [One α]
+
+/-- What the random stream / `nvecs` must deliver for the start to be well-shaped
+(a given guess is validated by `cp_als` itself). -/
+def InitOK (D : Data α) (rank : Nat) : Init α → Prop
+  | .given _ => True
+  | .random draws => ∀ n < D.shape.length, IsMat (D.shape.getD n 0) rank (draws.getD n [])
+  | .nvecs => ∀ f, D.nvecs = some f → ∀ n < D.shape.length, IsMat (D.shape.getD n 0) rank (f n rank)
+  | .unsupported => True
+
+theorem isPermOf_mem {order : List Nat} {N : Nat} (h : isPermOf order N = true) {n : Nat} (hn : n < N) :
+    n ∈ order := by
+  unfold isPermOf at h
+  simp only [Bool.and_eq_true, List.all_eq_true, List.mem_range] at h
+  simpa using h.2 n hn
+
+theorem isPermOf_lt {order : List Nat} {N : Nat} (h : isPermOf order N = true) : ∀ n ∈ order, n < N := by
+  unfold isPermOf at h
+  simp only [Bool.and_eq_true, beq_iff_eq, List.all_eq_true, List.mem_range] at h
+  have hsub : List.range N ⊆ order := fun m hm => by simpa using h.2 m (List.mem_range.1 hm)
+  have hperm : (List.range N).Perm order :=
+    (List.subperm_of_subset List.nodup_range hsub).perm_of_length_le (by simp [h.1])
+  intro n hn
+  exact List.mem_range.1 (hperm.symm.subset hn)
+
+theorem setup_spec {D : Data α} {P : Params α} {init : Init α} {di od dims : List Nat} {K : Ktensor α}
+    (h : setup D P init = .ok (di, od, dims, K)) (hi : InitOK D P.rank init) :
+    ShapeOK D.shape P.rank K.factors ∧ K.weights.length = P.rank ∧ dims ≠ [] ∧ 0 < P.rank ∧
+    isPermOf di D.shape.length = true ∧ dims = di.filter (fun d => od.contains d) ∧
+    (∀ K0, init = .given K0 → K = K0) := by
+  unfold setup at h
+  simp only [bind, Except.bind, pure, Except.pure] at h
+  split at h
+  · cases h
+  split at h
+  · cases h
+  rename_i hperm hrank
+  have hperm' : isPermOf (P.dimorder.getD (List.range D.shape.length)) D.shape.length = true := by
+    simpa using hperm
+  cases init with
+  | given K0 =>
+    simp only at h
+    split at h
+    · cases h
+    split at h
+    · cases h
+    split at h
+    · rename_i hlen hw hall
+      split at h
+      · cases h
+      rename_i hempty
+      simp only [Except.ok.injEq, Prod.mk.injEq] at h
+      obtain ⟨rfl, rfl, rfl, rfl⟩ := h
+      refine ⟨⟨by simpa using hlen, fun n hn => ?_⟩, by simpa using hw, ?_, ?_, ?_, rfl, fun K1 hK => by cases hK; rfl⟩
+      · have := (List.all_eq_true.1 hall) n (isPermOf_mem hperm' hn)
+        simp only [Bool.and_eq_true, beq_iff_eq, List.all_eq_true] at this
+        exact ⟨this.1, fun row hrow => by simpa using this.2 row hrow⟩
+      · intro he; rw [he] at hempty; exact hempty rfl
+      · rcases Nat.eq_zero_or_pos P.rank with h0 | h0
+        · simp [h0] at hrank
+        · exact h0
+      · exact hperm'
+    · cases h
+  | random draws =>
+    simp only at h
+    split at h
+    · cases h
+    rename_i hempty
+    simp only [Except.ok.injEq, Prod.mk.injEq] at h
+    obtain ⟨rfl, rfl, rfl, rfl⟩ := h
+    refine ⟨⟨by simp, fun n hn => ?_⟩, by simp, ?_, ?_, hperm', rfl, fun K1 hK => by cases hK⟩
+    · have := hi n hn
+      simpa [List.getD_eq_getElem?_getD, hn] using this
+    · intro he; rw [he] at hempty; exact hempty rfl
+    · rcases Nat.eq_zero_or_pos P.rank with h0 | h0
+      · simp [h0] at hrank
+      · exact h0
+  | nvecs =>
+    simp only at h
+    cases hf : D.nvecs with
+    | none => rw [hf] at h; cases h
+    | some f =>
+      rw [hf] at h
+      simp only at h
+      split at h
+      · cases h
+      rename_i hempty
+      simp only [Except.ok.injEq, Prod.mk.injEq] at h
+      obtain ⟨rfl, rfl, rfl, rfl⟩ := h
+      refine ⟨⟨by simp, fun n hn => ?_⟩, by simp, ?_, ?_, hperm', rfl, fun K1 hK => by cases hK⟩
+      · have := hi f hf n hn
+        simpa [List.getD_eq_getElem?_getD, hn] using this
+      · intro he; rw [he] at hempty; exact hempty rfl
+      · rcases Nat.eq_zero_or_pos P.rank with h0 | h0
+        · simp [h0] at hrank
+        · exact h0
+  | unsupported => simp only at h; cases h
+
+end setup
+
+section rejects
+variable {α : Type} [Add α] [Sub α] [Mul α] [Div α] [Neg α] [Zero α] [One α]
+
+theorem setup_rejects (D : Data α) (P : Params α) (init : Init α)
+    (h : isPermOf (P.dimorder.getD (List.range D.shape.length)) D.shape.length = false ∨ P.rank = 0 ∨
+      (P.dimorder.getD (List.range D.shape.length)).filter
+        (fun d => (P.optdims.getD (List.range D.shape.length)).contains d) = []) :
+    setup D P init = .error .reject := by
+  unfold setup
+  simp only [bind, Except.bind, pure, Except.pure]
+  split
+  · rfl
+  split
+  · rfl
+  rcases h with h | h | h
+  · rename_i h1 _; simp [h] at h1
+  · rename_i _ h2; simp [h] at h2
+  · cases init with
+    | given K0 =>
+      simp only
+      split; · rfl
+      split; · rfl
+      split
+      · rw [h]; rfl
+      · rfl
+    | random draws => simp only; rw [h]; rfl
+    | nvecs =>
+      simp only
+      cases D.nvecs with
+      | none => rfl
+      | some f => simp only; rw [h]; rfl
+    | unsupported => rfl
+
+theorem run_rejects (D : Data α) (S : Services α) (o : NumOps α) (P : Params α) (init : Init α)
+    (h : P.maxiters = 0 ∨ setup D P init = .error .reject) : run D S o P init = .error .reject := by
+  unfold run
+  rcases h with h | h
+  · cases hs : setup D P init with
+    | error e => cases e; rfl
+    | ok r =>
+      obtain ⟨a, b, c, d⟩ := r
+      simp [bind, Except.bind, h]
+  · rw [h]; rfl
+
+end rejects
 
 end Pyttb.CpAls
